@@ -325,6 +325,13 @@ def judge(case, r, viol, what, obs):
         if ab:
             viol.add('spurious_abort', '%s: connection abort on the bus for a transfer that was delivered (%s; pre-empted at %s)' % (what, ab[0].brief(), locs),
                      role=case.get('role', 'both'), **tag)
+    # the frames the stacks put on the bus are conforming J1939-21 / -22 whatever the interleaving was (independent sniffer)
+    from ref import sniffer as SN
+    sn = SN.sniff(layer, W.bus.frames)
+    for (pk, by, msg) in sn.problems:
+        # (only for transfers between two stacks: against the scripted peer that aborts, a packet already on its way when the abort arrives is legitimate)
+        if by in ('A', 'B') and not case['mode'].startswith('x_'):
+            viol.add('wire_' + pk, '%s: %s (pre-empted at %s)' % (what, msg, locs), **tag)
     M.m_quiet(viol, W, layer, what='8 s after the transfer (%s, pre-empted at %s)' % (what, locs))
     M.m_live(viol, W, layer)
 
